@@ -238,7 +238,8 @@ CtorCases(d) == UNION {{Via(a, ct) : ct \in (IF d = 2 THEN Ctors(a.c) ELSE {"new
 IdBase == {a \in BaseCases(2) : /\ a.c \in IdComps /\ a.st = (IF a.c \in StrComps THEN 1 ELSE 0) /\ a.pr # 1 /\ a.p2 # 1
                                 /\ a.pin \in {Zeros(1, 2), <<IdP(2)>>}}
 SibSt(c) == IF c \in StrComps THEN {2, StBad} ELSE {0}
-Sibs(c, i) == {<<>>} \cup {<<[id |-> s, pr |-> x, st |-> y]>> : s \in IdsMC \ {i}, x \in {0, 2, 3}, y \in SibSt(c)}
+\* (s = i: an earlier instance under the executed instance's own identifier; up = 1: in the enclosing scope)
+Sibs(c, i) == {<<>>} \cup {<<[id |-> s, pr |-> x, st |-> y, up |-> u]>> : s \in IdsMC, x \in {0, 2, 3}, y \in SibSt(c), u \in {0, 1}}
 Adapts(c, i, sb) ==
     LET ids == {i} \cup {sb[k].id : k \in DOMAIN sb} IN
     {<<>>} \cup {<<[id |-> t, w |-> 1, v |-> x]>> : t \in ids, x \in {0, 3}}
